@@ -4,7 +4,8 @@ CONSTANT Tier
 Quick(c) == c.curves # "p256-p384" /\ (c.suites = "default" \/ c.vers = "12") /\ (c.resume => c.vers \in {"13", "12"})
 VARIABLES c, cfg
 Valid(x) == (x.order = "reversed" => (Tier # "quick" \/ (x.curves = "default" /\ x.suites = "default" /\ x.sv = "sent"))) /\ x.sv = "absent" => (x.vers \in {"12", "10-12"} /\ (Tier # "quick" \/ (x.curves = "default" /\ x.suites = "default")))
-Init == c \in { x \in Clients : Valid(x) /\ (Tier # "quick" \/ Quick(x)) } /\ cfg \in MatcherCfgs
+BigOK(x) == x.big => (x.order = "native" /\ x.sv = "sent" /\ ~x.resume /\ x.curves = "default" /\ x.suites = "default")
+Init == c \in { x \in Clients : BigOK(x) /\ Valid(x) /\ (Tier # "quick" \/ Quick(x)) } /\ cfg \in MatcherCfgs
 Next == UNCHANGED <<c, cfg>>
 Emit == PrintT(<<"VOUT", ToJson([c |-> c, cfg |-> cfg])>>)
 =============================================================================
